@@ -158,9 +158,17 @@ def gen_instance(rng, primal=True, m=None, n=None, alpha_style=None):
                          for j in range(m)]
             inst['vdiag'] = True
         else:
-            inst['v'] = [{'off': frac_str(F(rng.choice([0, 0, 1]))),
-                          'co': [[k, frac_str(F(rng.choice([1, 2, -1])))] for k in sorted(rng.sample(range(nuser), rng.randint(1, nuser)))]}
-                         for _ in range(m)]
+            # v_j = sum over a few w_k (always w_j among them) + d_j, the atoms of an entry listed in RANDOM order (the scalar expressions
+            # are summed up in this order, so they are not inserted by ascending index) with pairwise different coefficients;
+            # C has full row rank for most draws, so that every moment vector is the image of some w (audited)
+            inst['nuser'] = max(nuser, m + rng.randint(0, 1))
+            inst['v'] = []
+            for jj in range(m):
+                others = rng.sample([k for k in range(inst['nuser']) if k != jj], min(inst['nuser'] - 1, rng.randint(0, 2)))
+                ks = [jj] + others
+                rng.shuffle(ks)
+                cvs = rng.sample([1, 2, -1, 3, F(1, 2)], len(ks))
+                inst['v'].append({'off': frac_str(F(rng.choice([0, 0, 1]))), 'co': [[k, frac_str(F(cv))] for k, cv in zip(ks, cvs)]})
         inst['c'] = gen_c_spec(rng, m, 0) if rng.random() < 0.5 else None
     return inst
 
